@@ -115,6 +115,10 @@ def pipes(r):
         if 'map(|x| { let y = [x]; || y })' in p:
             # closures print with their address, observe what they capture instead
             s = ("print(%s.map(|f| f()).list());" % p) if r.random() < 0.7 else ("print(%s.len());" % p)
+        if r.random() < 0.3:
+            # the pipeline runs as the root function of a freshly launched fiber: its stack is sized for that function alone,
+            # so the first callback a native makes has to grow it (an allocation between the iterator's step and the callback)
+            s = "if true { let fin = chan(1); launch (|| { %s fin <- 1; })(); <- fin; }" % s
         lines.append(s)
     return program("pipes", lines)
 
